@@ -29,7 +29,7 @@ SPEC = dict(
           "ids of all components (reflection) distinct. poison: parses abandoned by a recovered panic (faulty provider panicking at the k-th Runtime() "
           "call) followed by ordinary parses. pp: concurrent PrettyPrint of shared trees next to parses. sinks: sinks fired on g pool workers "
           "interpolate strings and import files while host goroutines parse. inject: the debugger's InjectValue for a suspended thread next to "
-          "parses. lean (after every fourth case): the payload carries programs with their token lists; every concurrent Go result is compared "
+          "parses. lean (after every case): the payload carries programs with their token lists; every concurrent Go result is compared "
           "with the result of the LEAN parser model (Model/Parser, the port C07 ties to parser.go) on the same tokens. Result = differing results, "
           "duplicate instance ids (mode lean: result hashes). Non-trivial = at least 2 goroutines (or mode poison / lean) and the directed programs "
           "included. A 10-case slice runs under the race detector in the quick tier, the quick set in the thorough tier."),
